@@ -431,7 +431,7 @@ func (SignatureProofScheme) ValidateFinalizedProof(
 	}
 
 	k := int(binary.BigEndian.Uint16(mainKeyID[:2]))
-	if k > nKeys {
+	if k == 0 || k > nKeys {
 		// Invalid/corrupted key.
 		return nil, false
 	}
@@ -439,6 +439,10 @@ func (SignatureProofScheme) ValidateFinalizedProof(
 	// Scratch combination index to reuse on every proof we process.
 	var combIndex big.Int
 	combIndex.SetBytes(mainKeyID[2:])
+	if !combinationIndexInRange(nKeys, k, &combIndex) {
+		// Invalid/corrupted key.
+		return nil, false
+	}
 
 	// The bits indicating which keys in the original set have been used so far.
 	// This value is used throughout the rest loop.
@@ -507,7 +511,11 @@ func (SignatureProofScheme) ValidateFinalizedProof(
 		// First get the reduced key set.
 		reducedKeys, projections = createKeyProjection(proof.Keys, &usedOriginalBits)
 		// Then determine the bit set mapping this combination index into the reduced key set.
-		if k > len(reducedKeys) {
+		if k == 0 || k > len(reducedKeys) {
+			// Corrupt/invalid key ID.
+			return nil, false
+		}
+		if !combinationIndexInRange(len(reducedKeys), k, &combIndex) {
 			// Corrupt/invalid key ID.
 			return nil, false
 		}
@@ -560,6 +568,16 @@ func (SignatureProofScheme) ValidateFinalizedProof(
 	}
 
 	return signBitsByHash, true
+}
+
+// combinationIndexInRange reports whether combIndex identifies
+// a combination of k out of nKeys elements, i.e. combIndex < C(nKeys, k).
+// The index arrives in a key ID from the network,
+// and decodeCombinationIndex must not be called with an index outside that range.
+func combinationIndexInRange(nKeys, k int, combIndex *big.Int) bool {
+	var total big.Int
+	binomialCoefficient(nKeys, k, &total)
+	return combIndex.Cmp(&total) < 0
 }
 
 // decodeCombinationIndex accepts n, k, and the combination index,
